@@ -166,15 +166,15 @@ def doc_line(g, universe):
 
 def value_choices(name, rng):
     good_s = [("s", "x"), ("s", ""), ("s", "/abs/p\xe9th with space")]
-    bad = [("i", 5), ("b", True), ("t", []), ("f",)]
+    bad = [("i", 5), ("b", True), ("b", False), ("t", []), ("f",)]      # both booleans: `false` is falsy in Lua
     if name in STR_SETTINGS:
         return good_s + bad + ([("n",)] if name != "prefix" else [("n",)])
     if name in NUM_SETTINGS:
-        return [("i", 0), ("i", 7), ("i", 100000), ("i", -1), ("f",), ("s", "7"), ("b", False), ("t", []), ("n",)]
+        return [("i", 0), ("i", 7), ("i", 100000), ("i", -1), ("f",), ("s", "7"), ("s", "0x10"), ("b", False), ("b", True), ("t", []), ("n",)]
     if name in EV_SETTINGS:
-        return [("s", "lab"), ("s", ""), ("n",), ("i", 3), ("b", True), ("t", [])]
+        return [("s", "lab"), ("s", ""), ("n",), ("i", 3), ("b", True), ("b", False), ("t", [])]
     return [("t", []), ("t", [("a", ("b", True))]), ("t", [("a", ("b", False)), ("/w/x", ("i", 1))]), ("t", [(None, ("b", True))]),
-            ("s", "x"), ("i", 1), ("n",)]
+            ("s", "x"), ("i", 1), ("b", False), ("b", True), ("n",)]
 
 
 def gen_cases(tier, seed):
